@@ -17,7 +17,7 @@ from .. import common, rt, aspast, corpus, gen_wide, harvest
 
 PROP = 'C13'
 MODULES = ['Cnl2aspModel.Props.C13']
-THEOREMS = ['C13_emit_arity', 'C13_names_append', 'C13_first_declaration_wins', 'C13_stable_arity_unmentioned']
+THEOREMS = ['C13_emit_arity', 'C13_names_append', 'C13_first_declaration_wins', 'C13_stable_arity_unmentioned', 'C13_fn_arity']
 
 POOL = ['node', 'room', 'seat', 'color', 'movie', 'waiter', 'edge', 'floor']
 ANAMES = ['id', 'name', 'first', 'weight', 'floor', 'room', 'color']
@@ -237,7 +237,7 @@ def main(tier):
                             'origins up to 2 levels) through the real add_signature + symbol conversion vs the model; search: corpus + '
                             'wide-generator specifications compiled in both modes after an unrelated compilation, every atom occurrence vs '
                             'get_symbols(); non-trivial = table with a rewrite / program with >= 3 predicates')
-    run.lean(MODULES, THEOREMS, extra_modules=['Cnl2aspModel.Compiler.Signatures'])
+    run.lean(MODULES, THEOREMS, extra_modules=['Cnl2aspModel.Compiler.Signatures', 'Cnl2aspModel.Compiler.SignaturesFn'])
     # ---- unit -----------------------------------------------------------------
     n_unit = 500 if tier == 'quick' else 6000
     raw = [rand_entities(rng) for _ in range(n_unit)]
@@ -252,6 +252,8 @@ def main(tier):
         reqs.append(('c13.table', {'entities': seen, 'eqpairs': pairs}))
     answers = common.run_model(reqs)
     nrew = 0
+    n_fn_rows = n_fn_hyp = 0
+    pairs_of = {id(e): p for e, (p, _, _) in zip(raw, prepared)}
     for (ents, real), ans in zip(cases, answers):
         mt = ans['table']
         rewritten = any(r['atom'] != len(e['keys']) + len(e['attrs']) for r in real for e in ents if e['name'] == r['name'])
@@ -262,8 +264,17 @@ def main(tier):
             run.broke('corr', 'addSignature/arity model vs SignatureManager + get_symbols conversion',
                       {'entities': ents, 'real': real, 'model': model_cmp})
             break
+        # C13_fn_arity on the real table: where its hypothesis holds (and names are compared by string equality) the printer's
+        # top-level argument count is the reported nested arity
+        for m in mt:
+            n_fn_rows += 1
+            if m.get('ownOk'):
+                n_fn_hyp += 1
+                if not pairs_of.get(id(ents)) and m['printedFn'] != m['fn']:
+                    run.broke('proof', 'C13_fn_arity evaluated on a real table', {'entities': ents, 'row': m})
     run.coverage['unit_tables'] = len(cases)
     run.coverage['unit_tables_with_rewrite'] = nrew
+    run.coverage['signatures_under_C13_fn_arity_hypothesis'] = f'{n_fn_hyp}/{n_fn_rows}'
     run.coverage['skipped_inexpressible_name_relation'] = skipped
     # ---- search ------------------------------------------------------------------
     texts = [t for _, t in corpus.corpus()]
